@@ -289,7 +289,9 @@ func PipelineGoroutines() int {
 	}
 	cnt := 0
 	for _, g := range strings.Split(string(buf), "\n\n") {
-		if strings.Contains(g, "osm/osmpbf.(*decoder).Start") || strings.Contains(g, "osm/osmpbf.(*dataDecoder)") {
+		// any goroutine running code of, or created by, the scanner packages: the pipeline
+		// goroutines of decoder.Start, and anything a constructor or helper may have started
+		if strings.Contains(g, "paulmach/osm/osmpbf.") || strings.Contains(g, "paulmach/osm/osmxml.") {
 			cnt++
 		}
 	}
